@@ -6,19 +6,19 @@ result") and one composition lemma per branch of the parser.  All fuel bookkeepi
 -/
 namespace Abra.Pratt
 
-def PB (fold : Bool) (bp : Nat) (toks : List Tok) (res : Res Expr) : Prop :=
+def PB (fold : FoldMode) (bp : Nat) (toks : List Tok) (res : Res Expr) : Prop :=
   res ≠ .fuel ∧ ∃ f, parseBp fold f bp toks = res
-def LP (fold : Bool) (bp : Nat) (lhs : Expr) (toks : List Tok) (res : Res Expr) : Prop :=
+def LP (fold : FoldMode) (bp : Nat) (lhs : Expr) (toks : List Tok) (res : Res Expr) : Prop :=
   res ≠ .fuel ∧ ∃ f, loop fold f bp lhs toks = res
-def PT (fold : Bool) (toks : List Tok) (res : Res Expr) : Prop :=
+def PT (fold : FoldMode) (toks : List Tok) (res : Res Expr) : Prop :=
   res ≠ .fuel ∧ ∃ f, parseTerm fold f toks = res
-def PL (fold : Bool) (close : Tok) (toks : List Tok) (res : Res Args) : Prop :=
+def PL (fold : FoldMode) (close : Tok) (toks : List Tok) (res : Res Args) : Prop :=
   res ≠ .fuel ∧ ∃ f, parseList fold f close toks = res
 
 theorem ok_ne_fuel {α : Type} {v : α} {r : List Tok} : (Res.ok v r : Res α) ≠ .fuel := by simp
 
 /-- whatever the relation says is what the total function `parseExprWith` returns -/
-theorem PB.parseExprWith {fold : Bool} {toks : List Tok} {res : Res Expr}
+theorem PB.parseExprWith {fold : FoldMode} {toks : List Tok} {res : Res Expr}
     (h : PB fold 0 (skipNl toks) res) : parseExprWith fold toks = res := by
   obtain ⟨hne, f, hf⟩ := h
   have h1 := fuel_suffices fold toks
@@ -28,7 +28,7 @@ theorem PB.parseExprWith {fold : Bool} {toks : List Tok} {res : Res Expr}
   rw [← b, a]
 
 -- ------------------------------------------------------------ parseBp
-theorem PB.of_prefix {fold : Bool} {bp : Nat} {toks rest r : List Tok} {op : PrefixOp} {rhs : Expr}
+theorem PB.of_prefix {fold : FoldMode} {bp : Nat} {toks rest r : List Tok} {op : PrefixOp} {rhs : Expr}
     {res : Res Expr} (hp : prefixOp? fold toks = some (op, rest))
     (h1 : PB fold op.prec rest (.ok rhs r)) (h2 : LP fold bp (Expr.unop op rhs) r res) :
     PB fold bp toks res := by
@@ -41,7 +41,7 @@ theorem PB.of_prefix {fold : Bool} {bp : Nat} {toks rest r : List Tok} {op : Pre
   simp only
   exact loop_lift e2 hne (Nat.le_max_right f1 f2)
 
-theorem PB.of_term {fold : Bool} {bp : Nat} {toks r : List Tok} {lhs : Expr}
+theorem PB.of_term {fold : FoldMode} {bp : Nat} {toks r : List Tok} {lhs : Expr}
     {res : Res Expr} (hp : prefixOp? fold toks = none)
     (h1 : PT fold toks (.ok lhs r)) (h2 : LP fold bp lhs r res) :
     PB fold bp toks res := by
@@ -55,7 +55,7 @@ theorem PB.of_term {fold : Bool} {bp : Nat} {toks r : List Tok} {lhs : Expr}
   exact loop_lift e2 hne (Nat.le_max_right f1 f2)
 
 -- ------------------------------------------------------------ parseTerm
-theorem PT.atom {fold : Bool} {toks rest : List Tok} {a : Atom}
+theorem PT.atom {fold : FoldMode} {toks rest : List Tok} {a : Atom}
     (hs : skipNl toks = .atom a :: rest) (hr : ∀ n, a = .int n → n ≤ I64_MAX) :
     PT fold toks (.ok (.atom a) rest) := by
   refine ⟨ok_ne_fuel, 1, ?_⟩
@@ -64,7 +64,18 @@ theorem PT.atom {fold : Bool} {toks rest : List Tok} {a : Atom}
   | int n => simp [hr n rfl]
   | _ => rfl
 
-theorem PT.paren {fold : Bool} {toks rest r : List Tok} {e : Expr}
+theorem PT.negLit {fold : FoldMode} {toks rest : List Tok} {a : Atom}
+    (hs : skipNl toks = .op .sub :: .atom a :: rest) (hn : a.isNum = true)
+    (hr : ∀ n, a = .int n → n ≤ I64_MAX + 1) :
+    PT fold toks (.ok (.neg (.atom a)) rest) := by
+  refine ⟨ok_ne_fuel, 1, ?_⟩
+  rw [parseTerm_succ, hs]
+  cases a with
+  | int n => simp [hr n rfl]
+  | float s => rfl
+  | _ => simp [Atom.isNum] at hn
+
+theorem PT.paren {fold : FoldMode} {toks rest r : List Tok} {e : Expr}
     (hs : skipNl toks = .lparen :: rest) (h : PL fold .rparen rest (.ok (.cons e .nil) r)) :
     PT fold toks (.ok e r) := by
   obtain ⟨_, f, e1⟩ := h
@@ -73,7 +84,7 @@ theorem PT.paren {fold : Bool} {toks rest r : List Tok} {e : Expr}
   simp only
   rw [e1]
 
-theorem PT.tuple {fold : Bool} {toks rest r : List Tok} {es : Args}
+theorem PT.tuple {fold : FoldMode} {toks rest r : List Tok} {es : Args}
     (hs : skipNl toks = .lparen :: rest) (h : PL fold .rparen rest (.ok es r)) (hlen : 2 ≤ es.length) :
     PT fold toks (.ok (.tuple es) r) := by
   obtain ⟨_, f, e1⟩ := h
@@ -84,7 +95,7 @@ theorem PT.tuple {fold : Bool} {toks rest r : List Tok} {es : Args}
   match es, hlen with
   | .cons a (.cons b c), _ => rfl
 
-theorem PT.array {fold : Bool} {toks rest r : List Tok} {es : Args}
+theorem PT.array {fold : FoldMode} {toks rest r : List Tok} {es : Args}
     (hs : skipNl toks = .lbrack :: rest) (h : PL fold .rbrack rest (.ok es r)) :
     PT fold toks (.ok (.array es) r) := by
   obtain ⟨_, f, e1⟩ := h
@@ -111,7 +122,7 @@ theorem stops_primary (rest : List Tok) : stops 16 rest = true := by
   split <;> simp
   rename_i o _; cases o <;> simp [BinOp.prec]
 
-theorem LP.stop {fold : Bool} {bp : Nat} {lhs : Expr} {toks : List Tok}
+theorem LP.stop {fold : FoldMode} {bp : Nat} {lhs : Expr} {toks : List Tok}
     (hs : stops bp toks = true) (hbp : bp ≤ 10) : LP fold bp lhs toks (.ok lhs toks) := by
   refine ⟨ok_ne_fuel, 1, ?_⟩
   rw [loop_succ]
@@ -123,7 +134,7 @@ theorem LP.stop {fold : Bool} {bp : Nat} {lhs : Expr} {toks : List Tok}
     | skip
   split <;> simp_all
 
-theorem LP.bin {fold : Bool} {bp : Nat} {lhs rhs : Expr} {o : BinOp} {rest r : List Tok}
+theorem LP.bin {fold : FoldMode} {bp : Nat} {lhs rhs : Expr} {o : BinOp} {rest r : List Tok}
     {res : Res Expr} (hbp : bp < o.prec)
     (h1 : PB fold o.prec rest (.ok rhs r)) (h2 : LP fold bp (.bin o lhs rhs) r res) :
     LP fold bp lhs (.op o :: rest) res := by
@@ -137,7 +148,7 @@ theorem LP.bin {fold : Bool} {bp : Nat} {lhs rhs : Expr} {o : BinOp} {rest r : L
   simp only
   exact loop_lift e2 hne (Nat.le_max_right f1 f2)
 
-theorem LP.call {fold : Bool} {bp : Nat} {lhs : Expr} {args : Args} {rest r : List Tok}
+theorem LP.call {fold : FoldMode} {bp : Nat} {lhs : Expr} {args : Args} {rest r : List Tok}
     {res : Res Expr} (hbp : bp ≤ 10)
     (h1 : PL fold .rparen rest (.ok args r)) (h2 : LP fold bp (.call lhs args) r res) :
     LP fold bp lhs (.lparen :: rest) res := by
@@ -151,7 +162,7 @@ theorem LP.call {fold : Bool} {bp : Nat} {lhs : Expr} {args : Args} {rest r : Li
   simp only
   exact loop_lift e2 hne (Nat.le_max_right f1 f2)
 
-theorem LP.member {fold : Bool} {bp : Nat} {lhs : Expr} {s : String} {r : List Tok}
+theorem LP.member {fold : FoldMode} {bp : Nat} {lhs : Expr} {s : String} {r : List Tok}
     {res : Res Expr} (hbp : bp ≤ 10) (h2 : LP fold bp (.member lhs s) r res) :
     LP fold bp lhs (.dot :: .atom (.ident s) :: r) res := by
   obtain ⟨hne, f2, e2⟩ := h2
@@ -161,7 +172,7 @@ theorem LP.member {fold : Bool} {bp : Nat} {lhs : Expr} {s : String} {r : List T
   rw [if_neg (by simp [precMember]; omega)]
   exact e2
 
-theorem LP.index {fold : Bool} {bp : Nat} {lhs i : Expr} {rest r r' : List Tok}
+theorem LP.index {fold : FoldMode} {bp : Nat} {lhs i : Expr} {rest r r' : List Tok}
     {res : Res Expr} (hbp : bp ≤ 10)
     (h1 : PB fold 0 (skipNl rest) (.ok i r)) (hr : skipNl r = .rbrack :: r')
     (h2 : LP fold bp (.index lhs i) r' res) :
@@ -178,7 +189,7 @@ theorem LP.index {fold : Bool} {bp : Nat} {lhs i : Expr} {rest r r' : List Tok}
   simp only
   exact loop_lift e2 hne (Nat.le_max_right f1 f2)
 
-theorem LP.unwrap {fold : Bool} {bp : Nat} {lhs : Expr} {r : List Tok}
+theorem LP.unwrap {fold : FoldMode} {bp : Nat} {lhs : Expr} {r : List Tok}
     {res : Res Expr} (hbp : bp ≤ 10) (h2 : LP fold bp (.unwrap lhs) r res) :
     LP fold bp lhs (.bang :: r) res := by
   obtain ⟨hne, f2, e2⟩ := h2
@@ -188,7 +199,7 @@ theorem LP.unwrap {fold : Bool} {bp : Nat} {lhs : Expr} {r : List Tok}
   rw [if_neg (by simp [precUnwrap]; omega)]
   exact e2
 
-theorem LP.try_ {fold : Bool} {bp : Nat} {lhs : Expr} {r : List Tok}
+theorem LP.try_ {fold : FoldMode} {bp : Nat} {lhs : Expr} {r : List Tok}
     {res : Res Expr} (hbp : bp ≤ 10) (h2 : LP fold bp (.try_ lhs) r res) :
     LP fold bp lhs (.question :: r) res := by
   obtain ⟨hne, f2, e2⟩ := h2
@@ -199,13 +210,13 @@ theorem LP.try_ {fold : Bool} {bp : Nat} {lhs : Expr} {r : List Tok}
   exact e2
 
 -- ------------------------------------------------------------ parseList
-theorem PL.nil {fold : Bool} {close : Tok} {toks rest : List Tok}
+theorem PL.nil {fold : FoldMode} {close : Tok} {toks rest : List Tok}
     (hs : skipNl toks = close :: rest) : PL fold close toks (.ok .nil rest) := by
   refine ⟨ok_ne_fuel, 1, ?_⟩
   rw [parseList_succ, hs]
   simp
 
-theorem PL.last {fold : Bool} {close t : Tok} {toks rest r : List Tok} {e : Expr}
+theorem PL.last {fold : FoldMode} {close t : Tok} {toks rest r : List Tok} {e : Expr}
     (hs : skipNl toks = t :: rest) (ht : t ≠ close) (hc : close ≠ .comma ∧ close ≠ .nl)
     (h1 : PB fold 0 (t :: rest) (.ok e (close :: r))) :
     PL fold close toks (.ok (.cons e .nil) r) := by
@@ -218,7 +229,7 @@ theorem PL.last {fold : Bool} {close t : Tok} {toks rest r : List Tok} {e : Expr
   cases close <;> simp_all
 
 /-- an item followed by the separator — `,` *or* a newline — and the rest of the list -/
-theorem PL.cons {fold : Bool} {close t sep : Tok} {toks rest r r' : List Tok} {e : Expr} {es : Args}
+theorem PL.cons {fold : FoldMode} {close t sep : Tok} {toks rest r r' : List Tok} {e : Expr} {es : Args}
     (hs : skipNl toks = t :: rest) (ht : t ≠ close) (hsep : sep = .comma ∨ sep = .nl)
     (h1 : PB fold 0 (t :: rest) (.ok e (sep :: r)))
     (h2 : PL fold close r (.ok es r')) :
